@@ -19,7 +19,8 @@ extern crate rustc_middle;
 extern crate rustc_session;
 extern crate rustc_span;
 
-use std::collections::HashMap;
+use std::collections::{BTreeMap, HashMap};
+use std::sync::{Mutex, OnceLock};
 use std::fmt::Write as _;
 use std::io::Write as _;
 
@@ -31,7 +32,10 @@ use rustc_middle::mir::{
     self, AggregateKind, BasicBlock, Body, Operand, Place, PlaceElem, Rvalue, StatementKind,
     TerminatorKind, UnwindAction,
 };
-use rustc_middle::ty::print::{with_crate_prefix, with_no_trimmed_paths, PrintTraitRefExt};
+use rustc_middle::ty::print::{
+    with_crate_prefix, with_no_trimmed_paths, with_no_visible_paths, PrintTraitRefExt,
+};
+use rustc_data_structures::steal::Steal;
 use rustc_middle::ty::{self, Instance, Ty, TyCtxt, TypingEnv};
 use rustc_span::Span;
 
@@ -78,14 +82,14 @@ impl Interner {
 
 macro_rules! np {
     ($tcx:expr; $e:expr) => {
-        fix_crate($tcx, with_crate_prefix!(with_no_trimmed_paths!($e)))
+        fix_crate($tcx, with_crate_prefix!(with_no_visible_paths!(with_no_trimmed_paths!($e))))
     };
 }
 
 
 /// Canonical, generics-free name of a definition; stable under reordering of impls.
 fn canon_name<'tcx>(tcx: TyCtxt<'tcx>, did: DefId) -> String {
-    let s = with_crate_prefix!(with_no_trimmed_paths!(canon_name_inner(tcx, did)));
+    let s = with_crate_prefix!(with_no_visible_paths!(with_no_trimmed_paths!(canon_name_inner(tcx, did))));
     fix_crate(tcx, s)
 }
 
@@ -229,7 +233,10 @@ impl<'a, 'tcx> Cx<'a, 'tcx> {
                 PlaceElem::Deref => out.push_str("\"*\""),
                 PlaceElem::Field(f, _) => {
                     let mut fname = String::new();
+                    let mut adt_i: i64 = -1;
                     if let ty::Adt(adt, _) = pty.ty.kind() {
+                        let an = canon_name(self.tcx, adt.did());
+                        adt_i = self.strs.get(&an) as i64;
                         let vidx = pty.variant_index.unwrap_or(rustc_abi::FIRST_VARIANT);
                         if adt.is_enum() || adt.is_struct() || adt.is_union() {
                             if let Some(v) = adt.variants().get(vidx) {
@@ -241,7 +248,7 @@ impl<'a, 'tcx> Cx<'a, 'tcx> {
                     }
                     let _ = write!(out, "[\"f\",{},", f.as_usize());
                     jstr(out, &fname);
-                    out.push(']');
+                    let _ = write!(out, ",{}]", adt_i);
                 }
                 PlaceElem::Downcast(name, v) => {
                     let _ = write!(out, "[\"d\",{},", v.as_usize());
@@ -734,7 +741,29 @@ fn vis_str<'tcx>(tcx: TyCtxt<'tcx>, did: DefId) -> &'static str {
     }
 }
 
+type MirBuiltFn = for<'tcx> fn(TyCtxt<'tcx>, LocalDefId) -> &'tcx Steal<Body<'tcx>>;
+static ORIG_MIR_BUILT: OnceLock<MirBuiltFn> = OnceLock::new();
+static STASH: Mutex<BTreeMap<u32, usize>> = Mutex::new(BTreeMap::new());
+
+/// Replacement provider of the `mir_built` query: run the real provider, clone the body into the
+/// tcx arena before anybody can steal it, remember where the clone lives.
+fn stash_mir_built<'tcx>(tcx: TyCtxt<'tcx>, def: LocalDefId) -> &'tcx Steal<Body<'tcx>> {
+    let orig = ORIG_MIR_BUILT.get().expect("original mir_built provider");
+    let r = orig(tcx, def);
+    let clone: Body<'tcx> = r.borrow().clone();
+    let p: &'tcx Body<'tcx> = tcx.arena.alloc(clone);
+    STASH.lock().unwrap().insert(def.local_def_index.as_u32(), p as *const Body<'tcx> as usize);
+    r
+}
+
 impl Callbacks for Cb {
+    fn config(&mut self, config: &mut rustc_interface::interface::Config) {
+        config.override_queries = Some(|_sess, providers| {
+            let _ = ORIG_MIR_BUILT.set(providers.queries.mir_built);
+            providers.queries.mir_built = stash_mir_built;
+        });
+    }
+
     fn after_expansion<'tcx>(&mut self, _c: &Compiler, tcx: TyCtxt<'tcx>) -> Compilation {
         let crate_name = tcx.crate_name(LOCAL_CRATE).to_string();
         if crate_name.starts_with("build_script") {
@@ -777,18 +806,13 @@ impl Callbacks for Cb {
         }
         let mut nfns = 0usize;
         let mut stolen = 0usize;
-        // Pass 1: clone every mir_built body before anything that could trigger borrowck
-        // (type_of(opaque), Instance resolution revealing opaques, const eval) steals it.
-        let mut bodies: HashMap<LocalDefId, Body<'tcx>> = HashMap::new();
+        // Pass 1: force mir_built for every body owner.  The overridden provider (see
+        // `stash_mir_built`) clones each body the moment it is built, so nothing that later
+        // steals it (borrowck triggered by type_of(opaque), const eval, ...) can lose it and the
+        // fact base does not depend on query order or incremental state.
+        let mut bodies: HashMap<LocalDefId, &'tcx Body<'tcx>> = HashMap::new();
         let mut stolen_names: Vec<String> = Vec::new();
-        // closures/coroutines first: borrowck of a parent steals its children
-        let mut order: Vec<LocalDefId> = owners.clone();
-        order.sort_by_key(|o| match tcx.def_kind(o.to_def_id()) {
-            DefKind::Closure | DefKind::SyntheticCoroutineBody => 0,
-            DefKind::Fn | DefKind::AssocFn => 1,
-            _ => 2,
-        });
-        for ldid in order.iter() {
+        for ldid in owners.iter() {
             let kind = tcx.def_kind(ldid.to_def_id());
             if !matches!(
                 kind,
@@ -797,16 +821,23 @@ impl Callbacks for Cb {
             ) {
                 continue;
             }
-            let steal = tcx.mir_built(*ldid);
-            if steal.is_stolen() {
-                stolen += 1;
-                if matches!(kind, DefKind::Fn | DefKind::AssocFn | DefKind::Closure) {
-                    stolen_names.push(canon_name(tcx, ldid.to_def_id()));
+            let _ = tcx.mir_built(*ldid);
+            let key = ldid.local_def_index.as_u32();
+            let ptr = STASH.lock().unwrap().get(&key).copied();
+            match ptr {
+                Some(p) => {
+                    // SAFETY: the pointer was produced from a `&'tcx Body<'tcx>` allocated in the
+                    // tcx arena by `stash_mir_built` during this very compilation session.
+                    let b: &'tcx Body<'tcx> = unsafe { &*(p as *const Body<'tcx>) };
+                    bodies.insert(*ldid, b);
                 }
-                continue;
+                None => {
+                    stolen += 1;
+                    if matches!(kind, DefKind::Fn | DefKind::AssocFn | DefKind::Closure) {
+                        stolen_names.push(canon_name(tcx, ldid.to_def_id()));
+                    }
+                }
             }
-            let b: Body<'tcx> = steal.borrow().clone();
-            bodies.insert(*ldid, b);
         }
         for (i, ldid) in owners.iter().enumerate() {
             let did = ldid.to_def_id();
@@ -832,14 +863,14 @@ impl Callbacks for Cb {
                 continue;
             }
             let name = canon_name(tcx, did);
-            let body = match bodies.get(ldid) {
-                Some(b) => b,
+            let body: &'tcx Body<'tcx> = match bodies.get(ldid) {
+                Some(b) => *b,
                 None => continue,
             };
             let tenv = TypingEnv::post_analysis(tcx, did);
             let mut cx = Cx {
                 tcx,
-                body: &body,
+                body,
                 tenv,
                 strs: &mut strs,
                 calls: Vec::new(),
